@@ -78,7 +78,8 @@ TCmd == /\ l <= N /\ TraceLog[l].e = "cmd"
 TraceNext == TReset \/ TCmd
 TraceSpec == TraceInit /\ [][TraceNext]_tvars
 
-\* "violated" = the whole trace was explained
+\* acceptance: no invariant fails and the progress register (Track, printed by the POSTCONDITION Report) reaches N + 1, the state after the last
+\* line.  (Listing NotAccepted as an invariant instead makes TLC print the whole accepted behaviour - useful for a short trace only.)
 NotAccepted == l <= N
 \* the tree changed as the documentation of the commands says (a failure is DRIFT of the algorithm-level reading, not of C04)
 TreeAsDocumented == asdoc
